@@ -37,18 +37,33 @@
 (*                  references itself (Derived.ref = Derived) recurses     *)
 (*                  until RecursionError (run as a mutant; TLC reports     *)
 (*                  AliasUntouched / RouteEq / ReturnsSelf)                *)
+(* SubRule "mro"    a member whose type is a SUBCLASS of classmethod /     *)
+(*                  staticmethod (abc.abstractclassmethod, ...) is         *)
+(*                  decorated like its base kind and keeps its type        *)
+(*                  (the intended design)                                  *)
+(*         "exact"  beartype 0.23.0: dispatch on the exact type name: a    *)
+(*                  classmethod subclass is "uncallable, not decoratable"  *)
+(*                  (the decoration raises), a staticmethod subclass is    *)
+(*                  replaced by a plain function (run as a mutant)         *)
 (* Mutant "none" | "inherited" | "alias" | "doublewrap" | "cm2func" |      *)
-(*        "nometa" | "wrapunann" | "nowrap"                                *)
+(*        "nometa" | "wrapunann" | "nowrap" |                              *)
+(*        "exacttype"  members are filtered by  value.__class__ in TYPES   *)
+(*                  instead of isinstance: nested classes whose metaclass  *)
+(*                  is not plain type (ABC, Enum, Protocol, custom) and    *)
+(*                  descriptor subclasses are silently skipped             *)
 (***************************************************************************)
 EXTENDS Naturals, Sequences, FiniteSets, TLC, Json
 
-CONSTANTS Rule, Mutant,
+CONSTANTS Rule, SubRule, Mutant,
           Optimized,      \* TRUE: the interpreter runs with -O
           Groups,         \* set of groups of universes and scenarios, each a record
-                          \*   [name, VB, VB2, VD, VO, VI, VDeep, Aliases, DCs, Orders, Confs, Free, MaxOps]
+                          \*   [name, VB, VB2, VD, VO, VI, VDeep, MB, MI, ME, Aliases, DCs, Orders, Confs, Free, MaxOps]
                           \*   VB, VB2    variants of Base.a, Base.a2             ("none" = absent)
                           \*   VD, VO     variants of Derived.b, Derived.a (overrides Base.a)
                           \*   VI, VDeep  variants of Derived.Inner.c, Derived.Inner.Deep.d
+                          \*   MB, MI, ME metaclass flavour of Base, Derived.Inner, Derived.Inner.Deep:
+                          \*              "type" | "abc" (abc.ABC) | "custom" (metaclass=Meta) | "enum" (enum.Enum
+                          \*              with a member) | "protocol" (typing.Protocol); Derived inherits Base's
                           \*   Aliases    subset of {"none", "Aux", "DerivedAux", "Base", "Self"}: Derived.ref = <that class>
                           \*   DCs        subset of {"none", "B", "D"}: the class that may become a dataclass
                           \*   Orders     names of the decoration orders to script (see Scripts)
@@ -64,7 +79,9 @@ CONSTANTS Rule, Mutant,
 (* parts = <<function>> for func / classmethod / staticmethod,              *)
 (*         <<fget, fset, fdel>> for property                                *)
 (* ------------------------------------------------------------------------ *)
-VR(k, a, b, c) == [kind |-> k, parts |-> <<a, b, c>>]
+VR(k, a, b, c) == [kind |-> k, parts |-> <<a, b, c>>, sub |-> FALSE]
+\* the member's type is a strict subclass of the builtin descriptor type
+VS(k, a, b, c) == [kind |-> k, parts |-> <<a, b, c>>, sub |-> TRUE]
 Variant(v) ==
   CASE v = "Fa" -> VR("func", "a", "-", "-")        [] v = "Fu" -> VR("func", "u", "-", "-")
     [] v = "Fn" -> VR("func", "n", "-", "-")        [] v = "Fm" -> VR("func", "m", "-", "-")
@@ -78,6 +95,7 @@ Variant(v) ==
     [] v = "Pau"  -> VR("property", "a", "u", "-")  [] v = "Pnn"  -> VR("property", "n", "n", "-")
     [] v = "Paaa" -> VR("property", "a", "a", "a")  [] v = "Puau" -> VR("property", "u", "a", "u")
     [] v = "Puua" -> VR("property", "u", "u", "a")
+    [] v = "Cs"   -> VS("classmethod", "a", "-", "-") [] v = "Ss" -> VS("staticmethod", "a", "-", "-")
     [] v = "Dt"   -> VR("data", "-", "-", "-")
     [] v = "none" -> VR("none", "-", "-", "-")
 
@@ -115,43 +133,50 @@ InitHeap(w) ==
 Opt(v, s) == IF v = "none" THEN <<>> ELSE <<s>>
 MkSlot(w, name, v, r) ==
   [name |-> name, kind |-> Variant(v).kind,
-   parts |-> [p \in 1..3 |-> IF Variant(v).parts[p] = "-" THEN 0 ELSE FuncId(w, r, p)], cls |-> 0]
-ClsSlot(name, kind, c) == [name |-> name, kind |-> kind, parts |-> <<0, 0, 0>>, cls |-> c]
+   parts |-> [p \in 1..3 |-> IF Variant(v).parts[p] = "-" THEN 0 ELSE FuncId(w, r, p)], cls |-> 0,
+   sub |-> Variant(v).sub]
+ClsSlot(name, kind, c) == [name |-> name, kind |-> kind, parts |-> <<0, 0, 0>>, cls |-> c, sub |-> FALSE]
 DataSlot(name) == ClsSlot(name, "data", 0)
-Class(qn, bases, owner, present, slots) ==
-  [qn |-> qn, bases |-> bases, owner |-> owner, present |-> present, slots |-> slots]
+\* meta: the flavour of the class' metaclass ("type": type(cls) is type; anything else: a subclass of type)
+Class(qn, bases, owner, present, meta, slots) ==
+  [qn |-> qn, bases |-> bases, owner |-> owner, present |-> present, meta |-> meta, slots |-> slots]
 AliasTarget(al) == CASE al = "Aux" -> 5 [] al = "DerivedAux" -> 6 [] al = "Base" -> 1 [] al = "Self" -> 2 [] OTHER -> 0
 
 Classes(w) == <<
-  Class(<<"Base">>, <<>>, 0, TRUE,
+  Class(<<"Base">>, <<>>, 0, TRUE, w.mb,
         Opt(w.vb, MkSlot(w, "a", w.vb, 1)) \o Opt(w.vb2, MkSlot(w, "a2", w.vb2, 2))
         \o (IF w.dc = "B" THEN <<DataSlot("fld")>> ELSE <<>>)),
-  Class(<<"Derived">>, <<1>>, 0, TRUE,
+  Class(<<"Derived">>, <<1>>, 0, TRUE, w.mb,      \* the metaclass is inherited
         Opt(w.vd, MkSlot(w, "b", w.vd, 3)) \o Opt(w.vo, MkSlot(w, "a", w.vo, 4))
         \o (IF w.vi # "none" THEN <<ClsSlot("Inner", "nested", 3)>> ELSE <<>>)
         \o (IF w.dc = "D" THEN <<DataSlot("fld")>> ELSE <<>>)
         \* last: "Self" can only be assigned once the class exists (Derived.ref = Derived)
         \o (IF w.al # "none" THEN <<ClsSlot("ref", "alias", AliasTarget(w.al))>> ELSE <<>>)),
-  Class(<<"Derived", ".", "Inner">>, <<>>, 2, w.vi # "none",
+  Class(<<"Derived", ".", "Inner">>, <<>>, 2, w.vi # "none", w.mi,
         Opt(w.vi, MkSlot(w, "c", w.vi, 5))
         \o (IF w.ve # "none" THEN <<ClsSlot("Deep", "nested", 4)>> ELSE <<>>)),
-  Class(<<"Derived", ".", "Inner", ".", "Deep">>, <<>>, 3, w.vi # "none" /\ w.ve # "none",
+  Class(<<"Derived", ".", "Inner", ".", "Deep">>, <<>>, 3, w.vi # "none" /\ w.ve # "none", w.me,
         Opt(w.ve, MkSlot(w, "d", w.ve, 6))),
-  Class(<<"Aux">>, <<>>, 0, w.al = "Aux", IF w.al = "Aux" THEN <<MkSlot(w, "m", "Fa", 7)>> ELSE <<>>),
-  Class(<<"Derived", "Aux">>, <<>>, 0, w.al = "DerivedAux",
+  Class(<<"Aux">>, <<>>, 0, w.al = "Aux", "type", IF w.al = "Aux" THEN <<MkSlot(w, "m", "Fa", 7)>> ELSE <<>>),
+  Class(<<"Derived", "Aux">>, <<>>, 0, w.al = "DerivedAux", "type",
         IF w.al = "DerivedAux" THEN <<MkSlot(w, "m", "Fa", 8)>> ELSE <<>>) >>
 NClasses == 6
 
 Universes(g) ==
-  { w \in [vb : g.VB, vb2 : g.VB2, vd : g.VD, vo : g.VO, vi : g.VI, ve : g.VDeep, al : g.Aliases, dc : g.DCs] :
-      (w.ve # "none" => w.vi # "none") }
+  { w \in [vb : g.VB, vb2 : g.VB2, vd : g.VD, vo : g.VO, vi : g.VI, ve : g.VDeep, mb : g.MB, mi : g.MI, me : g.ME,
+            al : g.Aliases, dc : g.DCs] :
+      /\ (w.ve # "none" => w.vi # "none" /\ w.mi # "enum")      \* (a class in an Enum body would become a member)
+      /\ (w.vi = "none" => w.mi = "type") /\ (w.ve = "none" => w.me = "type")
+      /\ (w.dc # "none" => w.mb = "type") }
 
-Group(name, vb, vb2, vd, vo, vi, vdeep, al, dcs, orders, confs, free, maxops) ==
-  [name |-> name, VB |-> vb, VB2 |-> vb2, VD |-> vd, VO |-> vo, VI |-> vi, VDeep |-> vdeep, Aliases |-> al,
+Group(name, vb, vb2, vd, vo, vi, vdeep, mb, mi, me, al, dcs, orders, confs, free, maxops) ==
+  [name |-> name, VB |-> vb, VB2 |-> vb2, VD |-> vd, VO |-> vo, VI |-> vi, VDeep |-> vdeep,
+   MB |-> mb, MI |-> mi, ME |-> me, Aliases |-> al,
    DCs |-> dcs, Orders |-> orders, Confs |-> confs, Free |-> free, MaxOps |-> maxops]
 \* the stand-alone configuration ClassDecor.cfg (also the configuration of the spec mutants)
 DefaultGroups ==
-  { Group("default", {"Fa"}, {"none"}, {"Fa", "Ca", "Fu"}, {"none"}, {"none", "Sa"}, {"none"},
+  { Group("default", {"Fa"}, {"none"}, {"Fa", "Ca", "Fu", "Cs", "Ss"}, {"none"}, {"none", "Sa"}, {"none"},
+          {"type"}, {"type", "abc", "enum"}, {"type"},
           {"none", "Aux", "DerivedAux", "Self"}, {"none"}, {"single", "memberclass", "membertwice"},
           {"D", "N"}, FALSE, 2) }
 
@@ -251,13 +276,27 @@ LogOf(parts, outs, k) ==
   LET E(p) == IF parts[p] = 0 THEN <<>> ELSE <<[f |-> parts[p], out |-> outs[p], k |-> k]>>
   IN E(1) \o E(2) \o E(3)
 
+\* beartype_nontype dispatches on the NAME of the exact type (_decornontypemap.py).  With SubRule =
+\* "exact" (0.23.0) an instance of a classmethod subclass falls through to "not callable(obj): raise
+\* BeartypeDecorWrappeeException", an instance of a staticmethod subclass is callable and handled as a
+\* pseudo-callable: what comes back is a plain function
+Uncallable(m) == SubRule = "exact" /\ m.sub /\ m.kind = "classmethod"
+Pseudofunc(m) == SubRule = "exact" /\ m.sub /\ m.kind = "staticmethod"
 \* beartype_nontype on the value of a function-like slot: the new slot and heap
 DecorSlot(h, m, k) ==
   LET d == DecorParts(h, m.parts, k)
   IN [fn |-> d.fn,
       slot |-> [m EXCEPT !.parts = d.parts,
-                         !.kind = IF Mutant = "cm2func" /\ m.kind = "classmethod" THEN "func" ELSE m.kind],
+                         !.kind = IF (Mutant = "cm2func" /\ m.kind = "classmethod") \/ Pseudofunc(m) THEN "func" ELSE m.kind,
+                         !.sub = IF Pseudofunc(m) THEN FALSE ELSE m.sub],
       log |-> LogOf(m.parts, d.parts, k)]
+\* the member filter of beartype_type: isinstance(attr_value, TYPES_BEARTYPEABLE).  The mutant tests
+\* attr_value.__class__ in TYPES_BEARTYPEABLE: a class whose metaclass is not exactly type, or a
+\* descriptor of a subclass type, is then no member to decorate
+TypeOk(m) ==
+  \/ Mutant # "exacttype"
+  \/ (m.kind \in {"nested", "alias"} /\ cls[m.cls].meta = "type")
+  \/ (m.kind \notin {"nested", "alias"} /\ ~m.sub)
 
 (* ------------------------------------------------------------------------ *)
 (* qualname test of beartype_type for class-valued attributes               *)
@@ -299,6 +338,8 @@ BeginMember(op) ==
      IF Optimized
      THEN /\ UNCHANGED <<cls, fn>> /\ log' = <<>>
           /\ ret' = [t |-> "slot", c |-> op.c, i |-> op.i, same |-> <<TRUE, TRUE, TRUE>>, obj |-> "same"]
+     ELSE IF Uncallable(m)
+     THEN /\ UNCHANGED <<cls, fn>> /\ log' = <<>> /\ ret' = Raised
      ELSE LET d == DecorSlot(fn, m, op.k) IN
           /\ fn' = d.fn /\ log' = d.log
           /\ cls' = [cls EXCEPT ![op.c].slots[op.i] = d.slot]
@@ -316,9 +357,9 @@ BeginDataclass(op) ==
   /\ pre' = Snap /\ hist' = Append(hist, op) /\ log' = <<>>
   /\ LET n == Len(fn) IN
      /\ cls' = [cls EXCEPT ![op.c].slots =
-                   @ \o << [name |-> "__init__", kind |-> "func", parts |-> <<n + 1, 0, 0>>, cls |-> 0],
-                           [name |-> "__repr__", kind |-> "func", parts |-> <<n + 2, 0, 0>>, cls |-> 0],
-                           [name |-> "__eq__",   kind |-> "func", parts |-> <<n + 3, 0, 0>>, cls |-> 0] >>]
+                   @ \o << [name |-> "__init__", kind |-> "func", parts |-> <<n + 1, 0, 0>>, cls |-> 0, sub |-> FALSE],
+                           [name |-> "__repr__", kind |-> "func", parts |-> <<n + 2, 0, 0>>, cls |-> 0, sub |-> FALSE],
+                           [name |-> "__eq__",   kind |-> "func", parts |-> <<n + 3, 0, 0>>, cls |-> 0, sub |-> FALSE] >>]
      /\ fn' = fn \o << Cell(TRUE, FALSE, 0, "-", n + 1), Cell(FALSE, FALSE, 0, "-", n + 2),
                        Cell(FALSE, FALSE, 0, "-", n + 3) >>
   /\ ret' = RetCls(op.c)
@@ -351,7 +392,7 @@ Skip == stack' = Popped \o <<[Top EXCEPT !.i = @ + 1]>>
 \* FunctionType, classmethod, staticmethod, property: beartype_object(attr_value, conf, cls_stack);
 \* "if attr_value_beartyped is not attr_value: set_type_attr(cls, attr_name, ...)"
 WalkFuncLike(kinds) ==
-  /\ AtMember /\ Member.kind \in kinds
+  /\ AtMember /\ Member.kind \in kinds /\ TypeOk(Member) /\ ~Uncallable(Member)
   /\ LET d == DecorSlot(fn, Member, Top.k) IN
      /\ fn' = d.fn /\ log' = log \o d.log
      /\ cls' = [cls EXCEPT ![Top.c].slots[Top.i] = d.slot]
@@ -361,21 +402,33 @@ WalkFunc == WalkFuncLike({"func"})
 WalkDescriptor == WalkFuncLike({"classmethod", "staticmethod"})
 WalkProperty == WalkFuncLike({"property"})
 
+\* only reachable with SubRule = "exact": the exception of beartype_nontype aborts the whole decoration
+WalkRaises ==
+  /\ AtMember /\ Member.kind \in FuncKinds /\ TypeOk(Member) /\ Uncallable(Member)
+  /\ stack' = <<>> /\ ret' = Raised
+  /\ UNCHANGED <<grp, u, cls, fn, mark, hist, prog, pre, log>>
+
+\* only reachable with Mutant = "exacttype"
+WalkNotBeartypeable ==
+  /\ AtMember /\ Member.kind # "data" /\ ~TypeOk(Member)
+  /\ Skip
+  /\ UNCHANGED <<grp, u, cls, fn, mark, ret, hist, prog, pre, log>>
+
 \* a class-valued attribute whose qualname passes the test: recursive beartype_type
 WalkClassTaken ==
-  /\ AtMember /\ Member.kind \in ClassKinds /\ Descends(Member.cls, Top.c) /\ Len(stack) <= MaxDepth
+  /\ AtMember /\ Member.kind \in ClassKinds /\ TypeOk(Member) /\ Descends(Member.cls, Top.c) /\ Len(stack) <= MaxDepth
   /\ stack' = Popped \o <<[Top EXCEPT !.i = @ + 1]>> \o <<[c |-> Member.cls, i |-> 0, k |-> Top.k]>>
   /\ UNCHANGED <<grp, u, cls, fn, mark, ret, hist, prog, pre, log>>
 
 \* only reachable with Rule = "prefix" (or the alias mutant): a class that references itself passes
 \* the qualname test, is not yet marked, and is walked again and again: RecursionError
 RecursionOverflow ==
-  /\ AtMember /\ Member.kind \in ClassKinds /\ Descends(Member.cls, Top.c) /\ Len(stack) > MaxDepth
+  /\ AtMember /\ Member.kind \in ClassKinds /\ TypeOk(Member) /\ Descends(Member.cls, Top.c) /\ Len(stack) > MaxDepth
   /\ stack' = <<>> /\ ret' = Raised
   /\ UNCHANGED <<grp, u, cls, fn, mark, hist, prog, pre, log>>
 
 WalkClassSkipped ==
-  /\ AtMember /\ Member.kind \in ClassKinds /\ ~Descends(Member.cls, Top.c)
+  /\ AtMember /\ Member.kind \in ClassKinds /\ TypeOk(Member) /\ ~Descends(Member.cls, Top.c)
   /\ Skip
   /\ UNCHANGED <<grp, u, cls, fn, mark, ret, hist, prog, pre, log>>
 
@@ -400,7 +453,7 @@ Next ==
   \/ DecorateClass \/ DecorateMember \/ MakeDataclass
   \/ CheckMarkHit \/ CheckMarkMiss
   \/ WalkFunc \/ WalkDescriptor \/ WalkProperty \/ WalkClassTaken \/ WalkClassSkipped \/ WalkData
-  \/ RecursionOverflow
+  \/ RecursionOverflow \/ WalkRaises \/ WalkNotBeartypeable
   \/ SetMark
 
 Spec == Init /\ [][Next]_vars
@@ -447,7 +500,7 @@ PartObs(h, f) ==
   IF f = 0 THEN [origin |-> 0, depth |-> 0, by |-> "-", meta |-> 0, wrapped |-> 0]
   ELSE [origin |-> Origin(h, f), depth |-> Depth(h, f), by |-> h[f].by, meta |-> h[f].meta,
         wrapped |-> h[f].wraps]          \* __wrapped__ (0: none)
-SlotObs(h, m) == [name |-> m.name, kind |-> m.kind, cls |-> m.cls, parts |-> [p \in 1..3 |-> PartObs(h, m.parts[p])]]
+SlotObs(h, m) == [name |-> m.name, kind |-> m.kind, sub |-> m.sub, cls |-> m.cls, parts |-> [p \in 1..3 |-> PartObs(h, m.parts[p])]]
 Proj(s) == [c \in 1..NClasses |->
               [mark |-> s.mark[c], slots |-> [i \in 1..Len(s.cls[c].slots) |-> SlotObs(s.fn, s.cls[c].slots[i])]]]
 
@@ -466,6 +519,9 @@ Decorating == Done /\ LastOp.t \in {"C", "M"}
 \* --- the clauses of C13 ---------------------------------------------------
 RouteEq == (Done /\ LastOp.t = "C") => Proj(Snap) = Proj(TLCEval(WantClass(pre, LastOp.c, LastOp.k)))
 ReturnsSelf == (Done /\ LastOp.t = "C") => ret = RetCls(LastOp.c)
+NestedDecorated ==      \* whatever their metaclass, the classes nested in a decorated class are decorated
+  (Done /\ LastOp.t = "C" /\ ~Optimized /\ ret = RetCls(LastOp.c)) =>
+     \A x \in 1..NClasses : (cls[x].present /\ InScope(x, LastOp.c)) => mark[x]
 InheritedUntouched ==
   Decorating => \A x \in Ancestors(LastOp.c) : ~InScope(x, LastOp.c) => Untouched(x)
 AliasUntouched ==
@@ -494,6 +550,7 @@ KindKept ==
      /\ \A i \in 1..Len(cls[c].slots) : /\ cls[c].slots[i].kind = pre.cls[c].slots[i].kind
                                         /\ cls[c].slots[i].name = pre.cls[c].slots[i].name
                                         /\ cls[c].slots[i].cls = pre.cls[c].slots[i].cls
+                                        /\ cls[c].slots[i].sub = pre.cls[c].slots[i].sub
 
 (* ======================================================================== *)
 (* Rows for the binding: everything the driver compares with the real code  *)
@@ -528,7 +585,7 @@ VerdictOf(r) ==
 Row ==
   [group |-> grp.name, u |-> u, hist |-> hist, optimized |-> Optimized,
    classes |-> [c \in 1..NClasses |-> [qn |-> cls[c].qn, bases |-> cls[c].bases, owner |-> cls[c].owner,
-                                       present |-> cls[c].present]],
+                                       present |-> cls[c].present, meta |-> cls[c].meta]],
    funcs |-> { [id |-> j, ann |-> fn[j].ann, ntc |-> fn[j].ntc] : j \in { j \in 1..Len(fn) : fn[j].wraps = 0 } },
    obs |-> Proj(Snap), ret |-> ret,
    verdicts |-> { VerdictOf(r) : r \in VerdictRows }]
